@@ -477,7 +477,7 @@ def stepPs (st : DState) (cmd : String) (args : List String) : DState × String 
       let f : CompFlags := { surr := get "surr", mf := get "mf", df := get "df", sf := get "sf", act := get "act",
                              cand := get "cand", costs := get "costs", ctrain := get "ctrain", ctest := get "ctest",
                              states := get "states", mcost := get "mcost", cu := get "cu", ru := get "ru", name := get "name" }
-      (st, " ".intercalate (sortBy (fun a b => a < b) (serializeKeys f)))
+      (st, " ".intercalate (sortBy (fun a b => a < b) (serializeKeysGen f)))
   | _ => (st, "bad-op")
 
 def step (st : DState) (line : String) : DState × String :=
